@@ -1,6 +1,6 @@
 (* C16 — DAG traversal and queries agree with graph-theoretic definitions.
    Only the property theorems; the proofs live in Algo/DagAlgoProofs.v.  The model (Algo/DagAlgo.v)
-   is tied to bigtree/utils/iterators.py:522-585 and bigtree/node/dagnode.py:362-414, 511-571 by
+   is tied to bigtree/utils/iterators.py:522-585 and bigtree/node/dagnode.py:364-416, 513-573 by
    check_C16 (Corr/DagAlgoCorr.v).  Vocabulary (Spec/PC16.v): Edge g p c = "c is in the children list
    of p"; Reach = transitive closure of Edge; Path g a b pi = "pi starts with a, ends with b and its
    consecutive elements are edges"; Wf = the parents / children lists are mutually consistent and
